@@ -98,13 +98,14 @@ func newExplorer(cfg *runConfig, harness string) *explorer {
 }
 
 type workItem struct {
-	prefix []int64
-	model  map[string]*Expr // model of the path condition at the end of prefix (may be nil)
+	prefix  []int64
+	model   map[string]*Expr // model of the path condition at the end of prefix (may be nil)
+	retries int
 }
 
 func (ex *explorer) push(prefix []int64, model map[string]*Expr) {
 	ex.mu.Lock()
-	ex.work = append(ex.work, workItem{prefix, model})
+	ex.work = append(ex.work, workItem{prefix: prefix, model: model})
 	ex.mu.Unlock()
 	ex.cond.Signal()
 }
@@ -563,6 +564,19 @@ func (ex *explorer) runPath(prog *loadedProgram, entry string, sol *Solver, item
 	i := newInterpreter(prog, ex, sol)
 	i.path = &pathState{prefix: prefix, prefixModel: item.model, nondetCnt: map[string]int{}, varSet: map[string]*Expr{}, decided: map[exprKey]bool{}}
 	status, detail := i.runHarness(entry)
+	if sol.dead || (sol.oneshot != nil && sol.oneshot.dead) {
+		// the solver process died during this path (resource pressure): its
+		// answers after that point are void; run the path again
+		if item.retries < 3 {
+			item.retries++
+			ex.mu.Lock()
+			ex.work = append(ex.work, item)
+			ex.mu.Unlock()
+			ex.cond.Signal()
+			return
+		}
+		status, detail = stEngineError, "solver process died repeatedly"
+	}
 	atomic.AddInt64(&ex.paths, 1)
 	atomic.AddInt64(&ex.transitions, int64(len(i.path.decisions)))
 	ex.mu.Lock()
